@@ -141,6 +141,10 @@ def canon(x):
         return {"__b": bytes(x).hex()}
     if isinstance(x, float):
         return {"__f": repr(x)}
+    if isinstance(x, int) and not isinstance(x, bool) and x.bit_length() > 256:
+        # a number too long for the decimal conversion limit of the interpreter (an agent that turns a
+        # long octet string into one integer): kept, but as hex
+        return {"__i": hex(x)}
     if isinstance(x, (str, int, bool)) or x is None:
         return x
     return {"__r": type(x).__name__}
